@@ -37,6 +37,13 @@ RELEVANT = {
     "tomography.py": ["C02", "C08", "C10", "C11", "C12", "C13"],
 }
 
+THIRD = False         # third operator family (--third): attribute / function name swapped with its sibling, range bounds, slice bounds
+SWAP = {}
+for _a, _b in (("R", "S"), ("x", "z"), ("any", "all"), ("min", "max"), ("zeros", "ones"), ("cx", "cz"), ("s", "sdg"), ("argmin", "argmax"), ("lstrip", "rstrip"),
+               ("startswith", "endswith"), ("keys", "values"), ("num_qubits", "num_vertices"), ("append", "extend"), ("floor", "ceil"), ("identity", "zeros_like"),
+               ("mubs", "circuits"), ("cost", "depth"), ("qubits", "clbits"), ("front", "inplace")):
+    SWAP[_a] = _b
+    SWAP[_b] = _a
 SECOND = False        # second operator family (--second): keyword dropped, connectivity name changed, argument renamed ...
 NAMES = ["all", "linear", "star", "cycle", "T", "Q", "E", "H", "ladder"]
 CMP = {ast.Lt: ast.LtE, ast.LtE: ast.Lt, ast.Gt: ast.GtE, ast.GtE: ast.Gt, ast.Eq: ast.NotEq, ast.NotEq: ast.Eq, ast.In: ast.NotIn, ast.NotIn: ast.In,
@@ -45,9 +52,32 @@ BIN = {ast.Add: ast.Sub, ast.Sub: ast.Add, ast.Mult: ast.FloorDiv, ast.LShift: a
        ast.BitOr: ast.BitAnd, ast.BitXor: ast.BitAnd, ast.Mod: ast.Mult, ast.FloorDiv: ast.Mult}
 
 
+def third_sites(n):
+    if isinstance(n, ast.Attribute) and n.attr in SWAP:
+        yield ("attrswap", n, f".{n.attr} -> .{SWAP[n.attr]}")
+    if isinstance(n, ast.Call) and isinstance(n.func, ast.Name) and n.func.id in SWAP:
+        yield ("fnswap", n, f"{n.func.id}(...) -> {SWAP[n.func.id]}(...)")
+    if isinstance(n, ast.Call) and isinstance(n.func, ast.Name) and n.func.id == "range" and 1 <= len(n.args) <= 2 and not isinstance(n.args[-1], ast.Constant):
+        yield ("range-1", n, "range upper bound - 1")
+        if len(n.args) == 1:
+            yield ("range1", n, "range(e) -> range(1, e)")
+    if isinstance(n, ast.Subscript) and isinstance(n.slice, ast.Slice) and n.slice.step is None:
+        if isinstance(n.slice.lower, ast.Constant) and isinstance(n.slice.lower.value, int):
+            yield ("slicelo", n, f"slice lower {n.slice.lower.value} -> {n.slice.lower.value + 1}")
+        if n.slice.lower is None and n.slice.upper is not None:
+            yield ("slicelo1", n, "slice [:u] -> [1:u]")
+        if n.slice.upper is None and n.slice.lower is not None:
+            yield ("sliceup", n, "slice [l:] -> [l:-1]")
+    if isinstance(n, ast.keyword) and n.arg in SWAP:
+        yield ("kwswap", n, f"keyword {n.arg}= -> {SWAP[n.arg]}=")
+
+
 def sites(fnode):
     """yield (operator name, path to node inside the function, description)"""
     for n in ast.walk(fnode):
+        if THIRD:
+            yield from third_sites(n)
+            continue
         if isinstance(n, ast.Compare) and len(n.ops) == 1 and type(n.ops[0]) in CMP:
             yield ("cmp", n, f"{type(n.ops[0]).__name__}->{CMP[type(n.ops[0])].__name__}")
         if isinstance(n, ast.BinOp) and type(n.op) in BIN:
@@ -150,6 +180,22 @@ def mutate(tree_ast, target, op):
             elif op.startswith("argname"):
                 i, other = op[7:].split(":")
                 n.args[int(i)] = ast.Name(id=other, ctx=ast.Load())
+            elif op == "attrswap":
+                n.attr = SWAP[n.attr]
+            elif op == "fnswap":
+                n.func.id = SWAP[n.func.id]
+            elif op == "range-1":
+                n.args[-1] = ast.BinOp(left=n.args[-1], op=ast.Sub(), right=ast.Constant(1))
+            elif op == "range1":
+                n.args = [ast.Constant(1), n.args[0]]
+            elif op == "slicelo":
+                n.slice.lower = ast.Constant(n.slice.lower.value + 1)
+            elif op == "slicelo1":
+                n.slice.lower = ast.Constant(1)
+            elif op == "sliceup":
+                n.slice.upper = ast.UnaryOp(op=ast.USub(), operand=ast.Constant(1))
+            elif op == "kwswap":
+                n.arg = SWAP[n.arg]
             elif op == "dropstep":
                 n.slice.step = None
             elif op == "retnone":
@@ -234,10 +280,12 @@ def main():
     ap.add_argument("--props", default="")
     ap.add_argument("--limit", type=int, default=0)
     ap.add_argument("--second", action="store_true", help="only the second operator family")
+    ap.add_argument("--third", action="store_true", help="only the third operator family")
     a = ap.parse_args()
     files = a.files.split(",")
-    global SECOND
+    global SECOND, THIRD
     SECOND = a.second
+    THIRD = a.third
     ms = gen(a.root, files)
     if a.second:
         ms = [m for m in ms if m["op"].startswith(("dropkw", "str:", "argname", "dropstep", "retnone"))]
